@@ -226,19 +226,16 @@ example : toV1Line Gen.matchTemplates Gen.matchComposites "soft" (0, 3, 0) [.int
 open C07Line in
 /-- **parse (format x) = x, and formatting is a fixpoint**, for every well-formed template whose fields
     are interpreted independently (`plain`: pedal lines, ptime, stime, section, the 1.0.0 performed note,
-    ornament / trill heads): if every value is written to a text its interpreter reads back as that value
-    (`RT` - what the per-codec theorems `int_roundtrip`, `fixed_decimal_roundtrip_partial`,
-    `frac_string_roundtrip_partial`, `version_roundtrip`, `key_names` establish) and the texts satisfy
-    `FieldsOK`, then the line is written, the search over the written line (whatever follows it) returns
-    the same values, and writing those again gives the identical text.
-    `_partial`: lines with an Attribute-dependent value (info, meta, scoreprop) and with the pitch
-    post-processing (snote, pre-1.0 note) and composite lines are covered by `search_format` /
-    `search_offset` for the pattern part and by the correspondence for the interpretation part. -/
-theorem line_roundtrip_partial (t : Template) (vals : List Val) (es : List (String × Str)) (tail : List Char)
+    ornament / trill heads) - the special case of `line_roundtrip` (Props/C07Lines.lean) with the simple
+    hypothesis `RT`: every value is written to a text its own interpreter reads back as that value (what
+    the per-codec theorems establish).  Lines with an Attribute-dependent value (info, meta, scoreprop),
+    with pitch post-processing (snote, pre-1.0 note) and composite lines: `line_roundtrip`,
+    `pitch_line_roundtrip`, `composite_pair` / `_pair0` / `_suffix` / `_prefix` in Props/C07Lines.lean. -/
+theorem line_roundtrip_plain (t : Template) (vals : List Val) (es : List (String × Str)) (tail : List Char)
     (ht : TemplateOK t) (hp : plain t = true) (hrt : RT t.fields vals es) (hv : FieldsOK t (textOf es) tail) :
     ∃ line, formatT t vals = some line ∧ parseT t (line ++ tail) = .ok vals ∧
       ((parseT t (line ++ tail)).toOption.bind (formatT t)) = some line := by
-  obtain ⟨h1, h2⟩ := line_roundtrip_plain t vals es tail ht hp hrt hv
+  obtain ⟨h1, h2⟩ := C07Line.line_roundtrip_plain t vals es tail ht hp hrt hv
   exact ⟨_, h1, h2, by rw [h2]; exact h1⟩
 
 -- non-vacuity: the 1.0.0 performed note inside a note pair, and a soft pedal line
